@@ -197,6 +197,24 @@ func leftoverNames(dir string) map[string]bool {
 	return names
 }
 
+// valueLostToLeftover names a package-level variable N such that a leftover output declares a
+// function N, the clean output contains the provider expression kessoku.Value(N) (under any
+// import alias) and the other output of the same file has lost it. "" if there is none.
+func valueLostToLeftover(clean, other map[string]string, left map[string]bool, pkgVars []string) string {
+	for _, n := range pkgVars {
+		if !left[n] {
+			continue
+		}
+		needle := ".Value(" + n + ")"
+		for k, c := range clean {
+			if strings.Contains(c, needle) && !strings.Contains(other[k], needle) {
+				return n
+			}
+		}
+	}
+	return ""
+}
+
 // explainedByLeftovers: every identifier that got a different allocator suffix has a base name
 // that a leftover output file declares or imports.
 func explainedByLeftovers(clean, other map[string]string, left map[string]bool) bool {
@@ -606,6 +624,13 @@ func (e *env) checkTarget(t *target, seed uint64, idx int, tier string, c *count
 				cause = "renamed-unexplained"
 				if explainedByLeftovers(clean.out, final.out, left) {
 					cause = "renamed-only,base-name-declared-in-leftover-output"
+				}
+			}
+			if cause == "other" && len(t.files) > 1 {
+				if n := valueLostToLeftover(clean.out, final.out, left, pkgVarNames(t.src)); n != "" {
+					// the multi-file residual of the type-checking defect (DESIGN 15, 6b): a leftover output of
+					// ANOTHER file of the invocation declares a function named like a package-level variable
+					cause = "provider-of-a-package-variable-lost,function-of-that-name-declared-in-leftover-output"
 				}
 			}
 			if len(t.files) > 1 {
